@@ -1122,6 +1122,14 @@ func (self *PathNode) scanChildren(p *thrift.BinaryProtocol, recurse bool, opts 
 	var con = self.Next[:0]
 	var v *PathNode
 	var err error
+	if opts.StoreChildrenById || opts.StoreChildrenByHash {
+		// sparse layouts recognise free slots by an empty Path/Node: slots left by a previous
+		// load of this tree must not look occupied (their Next slices are kept for reuse)
+		for old := self.Next[:cap(self.Next)]; len(old) > 0; old = old[1:] {
+			old[0].Path = Path{}
+			old[0].Node = Node{}
+		}
+	}
 	l := len(con)
 	c := cap(con)
 
